@@ -545,6 +545,52 @@ def run(F, chk):
                               (n.get("short"), bad))
     chk.floor(R4, 1)
 
+    # ---------------------------------------------------------------- R19.6
+    R6 = chk.rule("R19.6", "'no surrounding whitespace' means the C whitespace class: the helpers of the clean-up recognise whitespace "
+                           "either through isspace() or through a character set that lists all six of its members (space, \\t, \\n, "
+                           "\\v, \\f, \\r) — a hand-written set that leaves one out keeps that character around a path")
+    WS = set(" \t\n\v\f\r")
+    n6 = 0
+    for gid in sorted(scope4):
+        g = F.fns[gid]
+        inits = {}
+        for d in walk(g.get("body") or {}):
+            if d["k"] == "Decl":
+                for v in d.get("vars", []):
+                    i0 = v.get("init")
+                    while is_node(i0) and i0["k"] in ("Cast", "Construct") and (i0.get("e") is not None or len(i0.get("args", [])) == 1):
+                        i0 = i0["e"] if i0.get("e") is not None else i0["args"][0]
+                    if is_node(i0) and i0["k"] == "Lit" and i0.get("lk") == "str":
+                        inits[v["id"]] = i0.get("sval")
+        for n in walk(g.get("body") or {}):
+            if n["k"] != "Call":
+                continue
+            if n.get("short") in ("isspace", "iswspace"):
+                n6 += 1
+                chk.instance(R6, ok=True, sample={"fn": g["name"], "recognises_whitespace_by": n["short"]})
+                continue
+            if not (n.get("ext") and n.get("short") in ("find_first_not_of", "find_last_not_of", "find_first_of", "find_last_of") and n.get("args")):
+                continue
+            a0 = n["args"][0]
+            while is_node(a0) and a0["k"] in ("Cast", "Construct") and (a0.get("e") is not None or len(a0.get("args", [])) == 1):
+                a0 = a0["e"] if a0.get("e") is not None else a0["args"][0]
+            lit = None
+            if is_node(a0) and a0["k"] == "Lit" and a0.get("lk") == "str":
+                lit = a0.get("sval")
+            elif is_node(a0) and a0["k"] == "Ref" and a0.get("id") in inits:
+                lit = inits[a0["id"]]
+            if not lit or len(lit) < 2 or not set(lit) <= WS:
+                continue  # not a whitespace set
+            n6 += 1
+            missing = sorted(WS - set(lit))
+            chk.instance(R6, ok=not missing, sample={"fn": g["name"], "set": repr(lit)})
+            if missing:
+                chk.violation("R19.6", "C19/R19.6:%s:%s" % (g["name"].split("(")[0], n["short"]), where(g, n),
+                              "%s recognises whitespace through the set %r, which lacks %s of the C whitespace class: such a character "
+                              "around a texture path survives the clean-up (and a path made only of it does not become empty)" %
+                              (g["name"], lit, ", ".join(repr(c) for c in missing)))
+    chk.floor(R6, 1)
+
     chk.assumptions += ["the regex pipeline's canonical form, idempotence, terrain prefix handling and termination are string "
                         "semantics: not decided (an observed candidate: a capitalised `Textures\\\\` path in terrain mode is "
                         "not a fixed point after one pass — value-level, outside this check)"]
